@@ -192,19 +192,39 @@ def verification_conditions(name, mutable_arrays=("out",)):
     if missing:
         raise Unsupported(f"{name}: arguments {missing} are not covered by the contract")
     pre = contract["pre"](inp, gh)
+    def kind(v):
+        return "dictlist" if isinstance(v, SDictList) else "dict" if isinstance(v, SDict) else "list" if isinstance(v, SList) else "counter" if isinstance(v, SCounter) else "arr" if isinstance(v, SArr) else "int"
+
     carried, carry_hyps = contract["carry"](inp, gh) if "carry" in contract else ({}, [])
+    carry_alias = {}
+    if carried:
+        # the state handed over by the earlier stages is named as the contract names it; the code may have renamed
+        # these locals: bind by role (kind and order of initialisation in the earlier segments)
+        prev_st, _ = init_state(vc, [s_ for seg in segs[:loop_no] for s_ in seg], inp, gh, contract)
+        code_prev = [(n, kind(v)) for n, v in prev_st.items() if n not in inp]
+        for kd in {kind(v) for v in carried.values()}:
+            cn = [n for n, v in carried.items() if kind(v) == kd]
+            kn = [n for n, k_ in code_prev if k_ == kd]
+            if len(cn) != len(kn):
+                raise Unsupported(f"{name}: the earlier stage hands over {cn} of kind {kd}, the code initialises {kn}")
+            carry_alias.update({c: k_ for c, k_ in zip(cn, kn) if c != k_})
+        carried = {carry_alias.get(n, n): v for n, v in carried.items()}
     st0, hyps0 = init_state(vc, pre_stmts, {**inp, **carried}, gh, contract)
     hyps0 = [*carry_hyps, *hyps0]
     if "inner_inv" in contract:
-        vc.inner_inv = lambda st_entry, st_now, t_, lst_: contract["inner_inv"](inp, gh, st_entry, st_now, t_, lst_)
+        def _inner(st_entry, st_now, t_, lst_):
+            try:
+                back = lambda st_: {**st_, **{c: st_[k_] for c, k_ in alias.items() if k_ in st_}}  # noqa: E731
+                return contract["inner_inv"](inp, gh, back(st_entry), back(st_now), t_, lst_)
+            except KeyError as ex:
+                raise Unsupported(f"{name}: the inner invariant refers to a variable the code no longer has: {ex}") from ex
+
+        vc.inner_inv = _inner
     # bind the contract's state variables: by name, or -- after a rename of locals -- by role
     # (kind of object and position among the initialisations of that kind)
     alias = {}
     declared = cg.STATE_VARS.get(name)
     if declared:
-        def kind(v):
-            return "dictlist" if isinstance(v, SDictList) else "dict" if isinstance(v, SDict) else "list" if isinstance(v, SList) else "counter" if isinstance(v, SCounter) else "arr" if isinstance(v, SArr) else "int"
-
         code_vars = [(n, kind(v)) for n, v in st0.items() if n not in inp]
         for kd in {k_ for _, k_ in declared}:
             cn = [n for n, k_ in declared if k_ == kd]
